@@ -99,7 +99,9 @@ CloseTo(obs, num, den, tol) == Abs(obs * (den \div SC) - num) <= tol * (den \div
 \*                  for pieces at lattice parameters)
 Allowed(e) ==
   \* (e.tnan = 1: the parameter is NaN - there is no value to expect, but there is an answer)
-  CASE e.op \in {"cubic", "spline"} /\ e.tnan = 1 -> e.panic = 0
+  \* (... and the evaluators agree on it: e.nanagree - eval and fast_eval of the cubic component by component,
+  \* the spline and the cubic of its segment on which components are numbers)
+  CASE e.op \in {"cubic", "spline"} /\ e.tnan = 1 -> e.panic = 0 /\ e.nanagree = 1
     [] e.op = "cubic" ->
          /\ e.panic = 0
          /\ \A c \in 1..Len(e.P) :
